@@ -14,6 +14,7 @@ use std::sync::Arc;
 use std::time::Instant;
 
 const CFG: usize = 3;
+const ROUTES: [&str; 4] = ["ShapeWriter+shx", "ShapeWriter", "Writer", "Writer over a typed ShapeWriter"];
 
 #[derive(Clone, Debug)]
 pub struct Case {
@@ -43,13 +44,14 @@ impl Case {
     }
     pub fn to_json(&self) -> Value {
         json!({"file_type": self.file_ty.name(), "offered_type": self.offered.name(),
-               "route": (["ShapeWriter+shx", "ShapeWriter", "Writer"][self.route as usize]), "ops": ops_name(&self.ops)})
+               "route": (ROUTES[self.route as usize]), "ops": ops_name(&self.ops)})
     }
     pub fn from_json(v: &Value) -> Option<Case> {
         let route = match v.get("route")?.as_str()? {
             "ShapeWriter+shx" => 0,
             "ShapeWriter" => 1,
             "Writer" => 2,
+            "Writer over a typed ShapeWriter" => 3,
             _ => return None,
         };
         Some(Case {
@@ -101,11 +103,11 @@ pub fn observe(pal: &Palette, case: &Case) -> Obs {
         }
     } else {
         let env = PEnv::new();
-        let results = exec_complete(pal, &to_pops(&case.ops), &env);
+        let results = exec_complete_on(pal, &to_pops(&case.ops), &env, case.route == 3);
         let renv = PEnv::new();
         // rows carry the op position as idx: keep the positions of the
         // original history so that the .dbf bytes are comparable
-        let ref_results = exec_complete_with_positions(pal, &case.ops, &renv);
+        let ref_results = exec_complete_with_positions(pal, &case.ops, &renv, case.route == 3);
         let d = |e: &PEnv| -> Vec<(&'static str, Vec<u8>)> {
             vec![
                 ("shp", e.shp.data()),
@@ -129,12 +131,14 @@ pub fn observe(pal: &Palette, case: &Case) -> Obs {
 
 /// The history with the R calls removed, each remaining row keeping the
 /// index it had in the full history.
-fn exec_complete_with_positions(pal: &Palette, ops: &[WOp], env: &PEnv) -> Vec<CallRes> {
+fn exec_complete_with_positions(pal: &Palette, ops: &[WOp], env: &PEnv, pre_typed: bool) -> Vec<CallRes> {
     use crate::bridge::*;
-    let mut w = shapefile::Writer::new(
-        shapefile::ShapeWriter::with_shx(env.shp.clone(), env.shx.clone()),
-        table::table_writer(env.dbf.clone()),
-    );
+    let mut sw = shapefile::ShapeWriter::with_shx(env.shp.clone(), env.shx.clone());
+    if pre_typed {
+        env.set_call(1000);
+        write_shape(&mut sw, &pal.lib[0]).expect("pre-write on a healthy destination");
+    }
+    let mut w = shapefile::Writer::new(sw, table::table_writer(env.dbf.clone()));
     let mut results = vec![];
     for (i, op) in ops.iter().enumerate() {
         if let WOp::W(k) = op {
@@ -150,7 +154,7 @@ fn exec_complete_with_positions(pal: &Palette, ops: &[WOp], env: &PEnv) -> Vec<C
 
 pub fn judge(case: &Case, o: &Obs) -> Vec<(String, String)> {
     let mut out = vec![];
-    let route = ["ShapeWriter+shx", "ShapeWriter", "Writer"][case.route as usize];
+    let route = ROUTES[case.route as usize];
     let expect = format!(
         "MismatchShapeType(requested={},actual={})",
         case.file_ty.code(),
@@ -238,14 +242,54 @@ fn run(pals: &[Palette], h: &Hist, ctx: &mut Ctx) {
     for (sig, detail) in judge(&case, &obs) {
         ctx.violation(sig, || case.to_json(), || detail);
     }
+    // the same history ended by the consuming write_shapes with shapes of the offered type: refused, nothing written
+    if case.route < 2 && case.ops.iter().any(|o| matches!(o, WOp::W(_))) && !case.ops.contains(&WOp::R) {
+        for k in 1..=2u8 {
+            let cj = || {
+                let mut v = case.to_json();
+                v["ending"] = json!(Ending::WriteShapesOther(k).name());
+                v
+            };
+            match catch(|| ending_other_verdicts(pal, &case, k)) {
+                Ok(v) => {
+                    ctx.lib_calls += case.ops.len() as u64 + 2;
+                    for (sig, d) in v {
+                        ctx.violation(sig, cj, || d);
+                    }
+                }
+                Err(p) => ctx.violation(format!("harness-or-drop-panic:{}", p.sig()), cj, || p.msg.clone()),
+            }
+        }
+    }
+}
+
+/// history, then `write_shapes(self, [other; k])`: the call is refused with the mismatch error and the files are
+/// those of the history followed by drop
+pub fn ending_other_verdicts(pal: &Palette, case: &Case, k: u8) -> Vec<(String, String)> {
+    let route = ROUTES[case.route as usize];
+    let env = WEnv::new(case.route == 0);
+    let results = exec_writer(pal, &case.ops, Ending::WriteShapesOther(k), &env, |_, _, _| {});
+    let renv = WEnv::new(case.route == 0);
+    let _ = exec_writer(pal, &case.ops, Ending::Drop, &renv, |_, _, _| {});
+    let mut out = vec![];
+    let expect = format!("MismatchShapeType(requested={},actual={})", case.file_ty.code(), case.offered.code());
+    let end = results.get(case.ops.len());
+    if end != Some(&CallRes::Err(expect.clone())) {
+        out.push((format!("{}:write_shapes-of-another-type-result", route), format!("write_shapes(self, [{}; {}]) on a {} file returned {:?}, expected Err({})", case.offered.name(), k, case.file_ty.name(), end, expect)));
+    }
+    if env.shp.data() != renv.shp.data() || env.shx.as_ref().map(|x| x.data()) != renv.shx.as_ref().map(|x| x.data()) {
+        out.push((format!("{}:write_shapes-of-another-type-changed-the-files", route), format!(".shp {} vs {} bytes (history then drop)", env.shp.len(), renv.shp.len())));
+    }
+    out
 }
 
 fn enabled(h: &Hist) -> Vec<u8> {
     let ops = &h[CFG..];
-    let complete = h[2] == 2;
+    let complete = h[2] >= 2;
     let nr = ops.iter().filter(|b| **b == 3).count();
     let mut v = vec![0u8, 1];
-    if !ops.is_empty() {
+    // (over a shape writer that already has its type, the very first call may be the rejected one)
+    if !ops.is_empty() || h[2] == 3 {
         if !complete {
             v.push(2);
         }
@@ -354,7 +398,7 @@ pub fn check(tier: Tier) -> i32 {
     for f in 0..13u8 {
         for o in 0..13u8 {
             if f != o {
-                for r in 0..3u8 {
+                for r in 0..4u8 {
                     inits.push(vec![f, o, r]);
                 }
             }
@@ -500,8 +544,8 @@ pub fn check(tier: Tier) -> i32 {
             tier,
             level: "model_checking",
             engine: "E1 stateright BFS over operation histories on the real ShapeWriter / Writer over instrumented devices",
-            rule: "all 13x12 ordered (file type, offered type) pairs x {ShapeWriter+shx, ShapeWriter, complete Writer} x every history over {Wa, Wb, F, R=write of the offered type} (first op a W, <=2 R, no F on the complete Writer) up to the depth bound; plus a rejected write after EVERY number 1..=bound of accepted records (per-call operation log), and user-defined shapes of another type announcing sizes up to usize::MAX/2, and user-defined shapes of each of the 14 types (NullShape included) offered to a file of every other type; plus every history up to the fault-history bound with one or two R behind a W under every single one-shot fault (thorough: every pair) on .shp / .shx, compared with the same history minus the rejected calls under the same faults; non-trivial = contains an R",
-            bounds: json!({"depth": depth, "fault_history_bound": tier.pick(4, 5), "type_pairs": 156, "routes": 3, "max_rejected_calls": 2}),
+            rule: "all 13x12 ordered (file type, offered type) pairs x {ShapeWriter+shx, ShapeWriter, complete Writer, complete Writer built over a ShapeWriter that already has its type} x every history over {Wa, Wb, F, R=write of the offered type} (first op a W, <=2 R, no F on the complete Writer) up to the depth bound; every history without R also ended by the consuming write_shapes(self, [offered type; 1..2]); plus a rejected write after EVERY number 1..=bound of accepted records (per-call operation log), and user-defined shapes of another type announcing sizes up to usize::MAX/2, and user-defined shapes of each of the 14 types (NullShape included) offered to a file of every other type; plus every history up to the fault-history bound with one or two R behind a W under every single one-shot fault (thorough: every pair) on .shp / .shx, compared with the same history minus the rejected calls under the same faults; non-trivial = contains an R",
+            bounds: json!({"depth": depth, "fault_history_bound": tier.pick(4, 5), "type_pairs": 156, "routes": 4, "max_rejected_calls": 2}),
             exhaustive: true,
             assumptions: vec!["'changes nothing else' is judged by byte equality with the same history minus the rejected calls, run on the same tree; the .dbf date stamp (the only clock) is masked".into()],
             started,
@@ -598,6 +642,12 @@ pub fn replay(v: &Value) -> Vec<(String, String)> {
         None => return vec![("bad-replay-file".into(), "cannot parse case".into())],
     };
     let pal = Palette::new(case.file_ty, Some(case.offered));
+    if let Some(Ending::WriteShapesOther(k)) = v.get("ending").and_then(|x| x.as_str()).and_then(Ending::from_name) {
+        return match catch(|| ending_other_verdicts(&pal, &case, k)) {
+            Ok(v) => v,
+            Err(p) => vec![(format!("harness-or-drop-panic:{}", p.sig()), p.msg)],
+        };
+    }
     match catch(|| observe(&pal, &case)) {
         Ok(o) => judge(&case, &o),
         Err(p) => vec![(format!("harness-or-drop-panic:{}", p.sig()), p.msg)],
